@@ -13,6 +13,8 @@ broadcast use vstd::std_specs::hash::group_hash_axioms;
 //@include inc/timers_decl.rs
 // every primitive / Duration constant of client.rs (new ones follow automatically)
 //@consts stun_agent :: mod client
+//@consts stun_agent :: mod timeout
+//@consts stun_agent :: mod rtt
 
 
 // ---- HashMap<TransactionId, StunTransaction>: vstd's model needs the key type to hash/compare structurally
@@ -947,6 +949,46 @@ impl StunClient {
             && (forall|id: TransactionId| old(self).transactions@.contains_key(id) ==> dl(old(self).transactions@, id) > instant.ns@))
         || exists|ids: Seq<TransactionId>| tmo_batch_ok(*old(self), *final(self), final(self).transaction_events.events@, ids, instant.ns@),
 //@end
+}
+
+// ---------------------------------------------------------------- configuration (client.rs): defaults of RFC 8489 and the estimator a transport gets
+//@item! stun_agent :: mod client > struct RttConfig
+//@item! stun_agent :: mod client > enum TransportReliability
+impl Default for RttConfig {
+//@item stun_agent :: mod client > impl Default for RttConfig > fn default
+//@tags C06 C15 C19
+//@spec
+    // RFC 8489 6.2.1: RTO 500 ms, Rm 16, Rc 7; clock granularity 1 ms
+    ensures r.rto.ns@ == 500_000_000, r.granularity.ns@ == 1_000_000, r.rm == 16, r.rc == 7,
+//@end
+}
+impl vstd::std_specs::convert::FromSpecImpl<TransportReliability> for StunRttCalcuator {
+    open spec fn obeys_from_spec() -> bool { false }
+    open spec fn from_spec(v: TransportReliability) -> Self { arbitrary() }
+}
+impl From<TransportReliability> for StunRttCalcuator {
+//@item stun_agent :: mod client > impl From<TransportReliability> for StunRttCalcuator > fn from
+//@tags C06 C15 C19
+//@spec
+    // a reliable transport keeps its single time-out; an unreliable one starts with the configured RTO, no sample, Rm and Rc as given
+    // (the representation invariant of the client needs Rc <= 31: 2^(Rc-1) is computed in 32 bits)
+    ensures match reliability {
+        TransportReliability::Reliable(t) => r == StunRttCalcuator::Reliable(t),
+        TransportReliability::Unreliable(c) => r is Unreliable && r->Unreliable_0.rm == c.rm && r->Unreliable_0.rc == c.rc
+            && r->Unreliable_0.last_request is None && r->Unreliable_0.rtt.srtt.ns@ == 0 && r->Unreliable_0.rtt.rto == c.rto
+            && (c.rc <= 31 ==> r.wf()),
+    },
+//@end
+}
+// base case of the client's representation invariant: no outstanding request, no timer
+pub proof fn lemma_wf_initial(c: StunClient)
+    requires c.timeouts.wf(), c.timeouts.ms().len() == 0, c.rtt.wf(), c.mechanism is Some ==> c.mechanism->Some_0.wf(),
+        c.transactions@ == Map::<TransactionId, StunTransaction>::empty(),
+    ensures c.wf(),
+{
+    assert forall|x: TimeoutItem| #[trigger] c.timeouts.ms().count(x) > 0 implies false by {
+        if c.timeouts.ms().count(x) > 0 { assert(c.timeouts.ms().len() > 0); }
+    }
 }
 proof fn vx_sentinel() ensures false {}
 } // verus!
